@@ -564,6 +564,8 @@ class SVGLexicalParser:
                         self._flag(),
                         self._coord(),
                     )
+                    if sweep is None:
+                        raise ValueError
                     if coord is None:
                         coord = self.inline_close
                         if coord is None:
